@@ -42,7 +42,7 @@ def run(ctx):
             rs = ctx.harness(["c16", "replay", ctx.write_ndjson("cat_self.ndjson", [c])])[-1]
             ctx.selftest("replay: wrong allowed set for r = 0", len(rs["bad"]) > 0)
     ctx.cov["rule"] = ("every weight vector in the bounds (TLC, quadrature and non-emptiness theorems checked on each) and LCG-generated vectors "
-                       "up to length 64, x {f32,f64} x 6 scalings (1, 0.37, 1000, two that make the weights sum to 1 +- 2e-4 (f32) / 3e-9 (f64), one that makes all weights subnormal) x variates {0, 1-ulp, midpoint grid, each threshold +-margin and exactly}; "
+                       "up to length 64, x {f32,f64} x 7 scalings (1, 0.37, 1000, two that make the weights sum to 1 +- 2e-4 (f32) / 3e-9 (f64), one that makes all weights subnormal, one that makes their sum overflow) x variates {0, 1-ulp, midpoint grid, each threshold +-margin and exactly}; "
                        "non-trivial = vectors containing a zero weight")
     ctx.cov["exhaustive"] = True
 
